@@ -17,14 +17,15 @@ import (
 // ---- registry (checks.json) ----
 
 type TierOpts struct {
-	Preempt  *int    `json:"preempt,omitempty"`
-	MaxZeros int     `json:"maxzeros,omitempty"`
-	BudgetS  float64 `json:"budget_s,omitempty"`
-	MaxPaths int     `json:"maxpaths,omitempty"`
-	StepCap  int     `json:"stepcap,omitempty"`
-	ConcCap  int     `json:"conccap,omitempty"`
-	Skip     bool    `json:"skip,omitempty"`
-	Bounds   string  `json:"bounds,omitempty"`
+	Preempt    *int     `json:"preempt,omitempty"`
+	MaxZeros   int      `json:"maxzeros,omitempty"`
+	BudgetS    float64  `json:"budget_s,omitempty"`
+	MaxPaths   int      `json:"maxpaths,omitempty"`
+	StepCap    int      `json:"stepcap,omitempty"`
+	ConcCap    int      `json:"conccap,omitempty"`
+	Background []string `json:"background,omitempty"`
+	Skip       bool     `json:"skip,omitempty"`
+	Bounds     string   `json:"bounds,omitempty"`
 }
 
 type Obligation struct {
@@ -48,14 +49,15 @@ type CheckDef struct {
 }
 
 type KnownFinding struct {
-	Property string `json:"property,omitempty"`
-	ID       string `json:"id,omitempty"`
-	Harness  string `json:"harness,omitempty"`
-	Region   string `json:"region,omitempty"`
-	Kind     string `json:"kind,omitempty"`
-	Match    string `json:"match,omitempty"` // substring of the violation message (races, deadlocks)
-	What     string `json:"what,omitempty"`
-	Fixed    string `json:"fixed,omitempty"`
+	Property string   `json:"property,omitempty"`
+	ID       string   `json:"id,omitempty"`
+	Harness  string   `json:"harness,omitempty"`
+	Region   string   `json:"region,omitempty"`
+	Kind     string   `json:"kind,omitempty"`
+	Match    string   `json:"match,omitempty"`     // substring of the violation message (races, deadlocks)
+	MatchAll []string `json:"match_all,omitempty"` // every one of these substrings must occur in the message
+	What     string   `json:"what,omitempty"`
+	Fixed    string   `json:"fixed,omitempty"`
 }
 
 func loadKnown(vroot string) []KnownFinding {
@@ -96,6 +98,17 @@ func matchKnown(known []KnownFinding, prop, fn string, v Violation) *KnownFindin
 		}
 		if k.Match != "" && v.Region == "" && (k.Kind == "" || k.Kind == v.Kind) && strings.Contains(v.Msg, k.Match) {
 			return k
+		}
+		if len(k.MatchAll) > 0 && v.Region == "" && (k.Kind == "" || k.Kind == v.Kind) {
+			all := true
+			for _, m := range k.MatchAll {
+				if !strings.Contains(v.Msg, m) {
+					all = false
+				}
+			}
+			if all {
+				return k
+			}
 		}
 	}
 	return nil
@@ -321,6 +334,7 @@ func cmdCheck(args []string) int {
 	exit := 0
 	inconclusive := false
 	nviol := 0
+	printedKF := map[string]bool{}
 	for _, lm := range def.Lemmas {
 		le := runLemma(vroot, lm)
 		ev.Coverage.Lemmas = append(ev.Coverage.Lemmas, le)
@@ -358,6 +372,12 @@ func cmdCheck(args []string) int {
 		}
 		if to.Preempt != nil {
 			o.Preempt = *to.Preempt
+		}
+		if len(to.Background) > 0 {
+			o.Background = map[string]bool{}
+			for _, b := range to.Background {
+				o.Background[b] = true
+			}
 		}
 		if o.BudgetS == 0 {
 			o.BudgetS = 600
@@ -443,7 +463,10 @@ func cmdCheck(args []string) int {
 				rec.Class = "not-reproduced"
 				inconclusive = true
 			case kf != nil:
-				fmt.Printf("KNOWN-FINDING: property=%s %s (%s; harness %s region %q; %d paths; replay=%s)\n", prop, kf.What, kf.ID, ob.Fn, v.Region, g.n, rf)
+				if !printedKF[kf.ID] {
+					printedKF[kf.ID] = true
+					fmt.Printf("KNOWN-FINDING: property=%s %s (%s; harness %s region %q; %d paths; replay=%s)\n", prop, kf.What, kf.ID, ob.Fn, v.Region, g.n, rf)
+				}
 				rec.Class = "known-finding " + kf.ID
 				ev.Coverage.KnownFindings = append(ev.Coverage.KnownFindings, kf.ID)
 			default:
@@ -535,6 +558,9 @@ func mergeTier(q, t TierOpts) TierOpts {
 	}
 	if t.ConcCap != 0 {
 		out.ConcCap = t.ConcCap
+	}
+	if len(t.Background) > 0 {
+		out.Background = t.Background
 	}
 	if t.Bounds != "" {
 		out.Bounds = t.Bounds
